@@ -1011,11 +1011,23 @@ func (fe *FnEnc) guardCheck(a *Addr, write bool, pos token.Pos) {
 	fe.check(kind, fmt.Sprintf("@%d.%s", top.sites[kind], fname), cond, "access to guarded field "+fname+" with the lock held", pos)
 }
 
-// viewCap returns the (symbolic) capacity of a slice view: unknown but >= len.
+// viewCap returns the (symbolic) capacity of a slice view: unknown but >= len,
+// and the same for every view of the same stored slice value.
 func (fe *FnEnc) viewCap(v *View) string {
 	if v.Cap == "" {
-		c := fe.s.fresh("cap", "Int")
-		fe.s.assert("(and (>= " + c + " " + v.Len + ") (< " + c + " 9223372036854775808))")
+		s := fe.s
+		if v.Origin != nil && !v.IsArray && !v.IsStr && v.Off == "0" {
+			es := s.sortOf(v.Elem)
+			fn := "seqcap_" + sortID(es)
+			s.declFun(fn, []string{s.seqSort(es)}, "Int")
+			base := s.load(fe.mem, v.Origin)
+			c := s.name("cap", "Int", "("+fn+" "+base+")")
+			s.assert("(and (>= " + c + " " + s.seqLen(es, base) + ") (>= " + c + " " + v.Len + ") (< " + c + " 9223372036854775808))")
+			v.Cap = c
+			return c
+		}
+		c := s.fresh("cap", "Int")
+		s.assert("(and (>= " + c + " " + v.Len + ") (< " + c + " 9223372036854775808))")
 		v.Cap = c
 	}
 	return v.Cap
